@@ -19,22 +19,27 @@
 (***************************************************************************)
 EXTENDS Exec
 
-SimpleModes  == {"before", "after", "alternate", "empty_alternate", "block_alt", "empty_block_alt"}
+SimpleModes  == {"before", "after", "alternate", "empty_alternate", "block_alt", "empty_block_alt", "clear"}
 ExecModes    == {"before", "after", "semantic_after", "block_entry", "block_exit",
-                 "func_entry", "func_exit"}
+                 "func_entry", "func_exit", "clear"}
 SpecialModes == {"semantic_after", "block_entry", "block_exit", "block_alt", "empty_block_alt",
                  "func_entry", "func_exit"}
 
 Acc(P)        == {i \in DOMAIN P : P[i].acc}
 ModesOf(P)    == {P[i].mode : i \in Acc(P)}
 
-\* injected code of all accepted entries with `mode` at 0-based `site`, in call order
-RECURSIVE CodeAtR(_, _, _, _)
-CodeAtR(P, i, mode, site) ==
-    IF i > Len(P) THEN <<>>
-    ELSE (IF P[i].acc /\ P[i].mode = mode /\ P[i].site = site THEN P[i].code ELSE <<>>)
-         \o CodeAtR(P, i + 1, mode, site)
-CodeAt(P, mode, site) == CodeAtR(P, 1, mode, site)
+\* a plan entry [mode |-> "clear", what |-> m, site] is clear_instr_at(site, m): it withdraws what was injected in
+\* mode m at that site so far (later injections count again)
+IsClear(e, what, site) == e.acc /\ e.mode = "clear" /\ e.site = site /\ e.what = what
+
+\* injected code of all accepted entries with `mode` at 0-based `site`, in call order, minus what was withdrawn
+RECURSIVE CodeAtR(_, _, _, _, _)
+CodeAtR(P, i, mode, site, acc) ==
+    IF i > Len(P) THEN acc
+    ELSE CodeAtR(P, i + 1, mode, site,
+                 IF IsClear(P[i], mode, site) THEN <<>>
+                 ELSE IF P[i].acc /\ P[i].mode = mode /\ P[i].site = site THEN acc \o P[i].code ELSE acc)
+CodeAt(P, mode, site) == CodeAtR(P, 1, mode, site, <<>>)
 
 ProbeIds(code) == LET s == SelectSeq(code, LAMBDA x : x.o = "probe") IN [i \in DOMAIN s |-> s[i].p]
 Fire(P, mode, site) == ProbeIds(CodeAt(P, mode, site))
@@ -43,21 +48,25 @@ Has(P, mode, site)  == \E i \in Acc(P) : P[i].mode = mode /\ P[i].site = site
 \* Replacement code at a site when replacements and removals were both requested there: a removal
 \* (empty_alternate / empty_block_alt) discards what earlier calls put there, a later replacement adds again
 \* ("the last request decides"; both injection paths of the library reset the list on removal).
-RECURSIVE AltCodeR(_, _, _, _, _, _)
-AltCodeR(P, i, mode, emode, site, acc) ==
-    IF i > Len(P) THEN acc
-    ELSE AltCodeR(P, i + 1, mode, emode, site,
-                  IF P[i].acc /\ P[i].site = site /\ P[i].mode = emode THEN <<>>
-                  ELSE IF P[i].acc /\ P[i].site = site /\ P[i].mode = mode THEN acc \o P[i].code
-                  ELSE acc)
-AltCode(P, site)      == AltCodeR(P, 1, "alternate", "empty_alternate", site, <<>>)
-BlockAltCode(P, site) == AltCodeR(P, 1, "block_alt", "empty_block_alt", site, <<>>)
+\* the state is [on, code]: on = the instruction IS replaced/removed; a withdrawal (clear) switches it off again
+RECURSIVE AltR(_, _, _, _, _, _)
+AltR(P, i, mode, emode, site, st) ==
+    IF i > Len(P) THEN st
+    ELSE AltR(P, i + 1, mode, emode, site,
+              IF IsClear(P[i], mode, site) THEN [on |-> FALSE, code |-> <<>>]
+              ELSE IF P[i].acc /\ P[i].site = site /\ P[i].mode = emode THEN [on |-> TRUE, code |-> <<>>]
+              ELSE IF P[i].acc /\ P[i].site = site /\ P[i].mode = mode THEN [on |-> TRUE, code |-> st.code \o P[i].code]
+              ELSE st)
+AltState(P, site)      == AltR(P, 1, "alternate", "empty_alternate", site, [on |-> FALSE, code |-> <<>>])
+BlockAltState(P, site) == AltR(P, 1, "block_alt", "empty_block_alt", site, [on |-> FALSE, code |-> <<>>])
+AltCode(P, site)      == AltState(P, site).code
+BlockAltCode(P, site) == BlockAltState(P, site).code
 
 ---------------------------------------------------------------------------
 \* C15 / C21: the spliced sequence
 \* region removed by a block-alternate at 1-based index i
 RegionEnd(B, jt, i) == IF B[i].o = "else" THEN jt[i].end - 1 ELSE jt[i].end
-IsAltStart(P, i)    == Has(P, "block_alt", i - 1) \/ Has(P, "empty_block_alt", i - 1)
+IsAltStart(P, i)    == BlockAltState(P, i - 1).on
 InRegion(B, jt, P, j) ==
     \E i \in 1 .. j : IsAltStart(P, i) /\ (B[i].o \in Openers \/ B[i].o = "else")
                       /\ j <= RegionEnd(B, jt, i)
@@ -71,7 +80,7 @@ Piece(B, jt, P, j) ==
     THEN BlockAltCode(P, j - 1)
     ELSE IF InRegion(B, jt, P, j) THEN <<>>
     ELSE CodeAt(P, "before", j - 1)
-         \o (IF Has(P, "alternate", j - 1) \/ Has(P, "empty_alternate", j - 1)
+         \o (IF AltState(P, j - 1).on
              THEN (IF j = Len(B) THEN <<B[j]>> ELSE AltCode(P, j - 1))
              ELSE <<B[j]>>)
          \o (IF j = Len(B) THEN <<>> ELSE CodeAt(P, "after", j - 1))
@@ -130,7 +139,7 @@ IStep(m, B, jt, ar, P, v) ==
         aft(mm) == EmitP(mm, Fire(P, "after", s))
         entry(mm, at) == EmitP(mm, Fire(P, "after", at) \o Fire(P, "block_entry", at))
     IN
-    IF (Has(P, "alternate", s) \/ Has(P, "empty_alternate", s)) /\ i < Len(B)
+    IF AltState(P, s).on /\ i < Len(B)
     THEN aft(EmitP(nx, Fire(P, "alternate", s)))
     ELSE
     CASE o = "op"    -> IF c.k = 0 /\ v = 1
@@ -170,6 +179,11 @@ IStep(m, B, jt, ar, P, v) ==
                         ELSE EmitP([nx EXCEPT !.vs = Pop(@)], Fire(P, "after", s) \o Fire(P, "semantic_after", s))
       [] o = "br_table" -> IF Len(m1.vs) = 0 THEN Stuck(m1)
                            ELSE IBranch([m1 EXCEPT !.vs = Pop(@)], B, jt, P, ar, i, BrTableDepth(c, Top(m1.vs)))
+      [] o = "rnull" -> aft([nx EXCEPT !.vs = Append(@, 0)])
+      [] o = "rfunc" -> aft([nx EXCEPT !.vs = Append(@, 1)])
+      [] o = "bron"  -> IF Len(m1.vs) = 0 THEN Stuck(m1)
+                        ELSE IF Top(m1.vs) = 0 THEN IBranch([m1 EXCEPT !.vs = Pop(@)], B, jt, P, ar, i, c.d)
+                        ELSE EmitP(nx, Fire(P, "after", s) \o Fire(P, "semantic_after", s))
       [] o = "return"      -> IReturn(m1, P, ar)
       [] o = "unreachable" -> Trap(EmitP(m1, Fire(P, "func_exit", -1)))
       [] o = "throw"       -> Trap(EmitP(m1, Fire(P, "func_exit", -1)))
